@@ -115,7 +115,7 @@ def do_run(ids, in_repo=False):
             try:
                 outcome = {}
                 for p in [pid] + list(meta.get("also_run", [])):
-                    env = "VERIF_REPO=%s VERIF_REPLAYS=/tmp/seeded-replays " % tree
+                    env = "VERIF_REPO=%s VERIF_REPLAYS=/tmp/seeded-replays VERIF_EVIDENCE=/tmp/seeded-evidence " % tree
                     rc, out = sh(env + "python3 tools/check.py %s --tier quick" % p, cwd=VERIF, timeout=3600)
                     vio = re.findall(r"^VIOLATION .*", out, re.M)
                     outcome[p] = dict(exit=rc, violations=len(vio), first=(vio[0] if vio else ""),
